@@ -39,8 +39,28 @@ mode flags that survive AssembleFile_InitPass), step machine spec/Driver_MC.tla.
     seed-chosen, thorough: all) rendered for 6502 / 68HC11, joint vs. solo as above.  Driver_MC_LeakyJmp.cfg (Leaky =
     {"jmperrors"}) must give the Independent counterexample.
 
+(L) latent state INSIDE the code generators (checks/ext_genlatent.py, spec/GenLatent.tla, GenLatent_MC.tla,
+    GenLatent_Gen.tla; added after a seeded change of code166.c InitCode_166 was missed): the dimension "where the
+    predecessor stops x where the successor starts".  Model: per-generator latent state (one-shot trackers cur / nxt,
+    sticky mode) that the generator's AddInitPassProc procedure must reset; Independent = the successor's code file,
+    exit contribution and diagnostics are a function of its own text and the options only; TLC refutes the deviations
+    Leak = {nxt} / {mode} and proves OnlyTailHead (a surviving tracker shows ONLY for last machine instruction of the
+    predecessor = set h, first machine instruction of the successor = dep h).  TLC enumerates the histories as windows
+    of golden sources (cut slot, start slot, trailer none / END / symbol + END / open construct, same / other family,
+    a file of another family in between, reverse order, all pairs of single-instruction files); Python instantiates
+    them for every golden source: cut / start points from the hook trace (lines that lay down code), windows with the
+    smallest header that assembles alone, quick: 2 x 2 slots + trailers for each of the ~195 families with emitters
+    (windows of <= 25 lines) and, of the all-kinds x all-kinds single-instruction pairs, those that an in-file probe
+    (one source in which every kind follows every kind, in two orders) shows to interact at all (<= 48 per family whose
+    generator registers an AddInitPassProc or tracks the previous instruction, <= 12 for the others) + 3 random ones;
+    thorough: 6 x 6 slots, whole prefixes / suffixes, up to 4000 pairs per tracked family.  Compared per member with
+    the solo run: code file, <name>.log (warnings included), exit status composed.  Findings on the unchanged tree:
+    ASSUME registers of SX20 / 78K4 / MN1613 / OLMS-50 never reset (proposed_fixes/C18-assume-regs-reset.diff), ColdFire
+    CPxNOP lays down a stale word (proposed_fixes/C18-cpnop-stale-word.diff): KNOWN-FINDING until applied.
+
 Not covered: fatal predecessors end the run (the successor is not assembled: stated by the model, nothing to
-compare); statics inside code generators are only visible through their effect on the golden successors; flags
+compare); statics inside code generators are visible through the golden successors and the windows of (L) (instructions
+reached only through macros / includes are never cut or start points; kinds beyond the bounds are sampled by seed); flags
 are compared pairwise with identical asflags only (options are per invocation).
 
 Finding on the tree as originally pinned: DOTTEDSTRUCTS ON survives into the next file (and the next pass):
@@ -64,6 +84,7 @@ import os
 import re
 
 from vlib import aslrun, build, drvrender, drvrun, drvtrace, tlc
+from checks import ext_genlatent
 from vlib.aslrun import INCLUDE
 from vlib.common import CheckError, Phase, log, pmap, rng
 from vlib.report import Report
@@ -597,6 +618,8 @@ def main(tier):
     hs = run_histories(rep, bld, trs, tier, execs)
     tests, groups, solo = run_corpus(rep, bld, tier, execs)
     run_gen_corpus(rep, bld, tier, hs, tests, groups, solo)
+    # latent state inside the code generators: where the predecessor stops x where the successor starts (GenLatent.tla)
+    ext_genlatent.run(rep, bld, tier)
     for h in hs[:2] + hs[-2:]:
         rep.sample({"files": dict(zip(h.names, h.texts)), "argv": h.names + h.argv_opts,
                     "expected": drvrender.expected(h.tr, h.o)})
